@@ -41,6 +41,9 @@ fn behaviour(stage: &str, b: &str) -> Stage {
         "tune" => Stage::Frames(vec![tune_frame(0, 0, 0)], false),
         "openok" => Stage::Frames(vec![open_ok_frame()], false),
         "heartbeat-then-normal" => Stage::Frames(vec![AMQPFrame::Heartbeat(0), normal(stage)], false),
+        // things a server may legitimately send right behind OpenOk (same segment)
+        "normal-then-heartbeat" => Stage::Frames(vec![normal(stage), AMQPFrame::Heartbeat(0)], false),
+        "normal-then-blocked" => Stage::Frames(vec![normal(stage), AMQPFrame::Method(0, AMQPClass::Connection(pconnection::AMQPMethod::Blocked(pconnection::Blocked { reason: "alarm".into() })))], false),
         "channel1-method" => Stage::Frames(vec![AMQPFrame::Method(1, AMQPClass::Channel(pchannel::AMQPMethod::OpenOk(pchannel::OpenOk { channel_id: String::new() })))], false),
         "header" => Stage::Frames(vec![AMQPFrame::Header(0, 60, Box::new(AMQPContentHeader { class_id: 60, weight: 0, body_size: 0, properties: Default::default() }))], false),
         "body" => Stage::Frames(vec![AMQPFrame::Body(0, vec![1, 2, 3])], false),
@@ -61,7 +64,7 @@ fn behaviour(stage: &str, b: &str) -> Stage {
 fn expected(stage: &str, b: &str, timeout: bool, external: bool) -> Vec<&'static str> {
     let after_start_ok = stage == "startok";
     match b {
-        "normal" | "heartbeat-then-normal" | "locale-second" => vec!["Ok"],
+        "normal" | "heartbeat-then-normal" | "locale-second" | "normal-then-heartbeat" | "normal-then-blocked" => vec!["Ok"],
         "secure" => {
             if after_start_ok {
                 vec!["Err(SaslSecureNotSupported)"]
@@ -137,6 +140,8 @@ impl Scenario for Hs {
             v.push(json!({"stage": "start", "b": b, "timeout": true, "auth": "plain", "info": false}));
         }
         v.push(json!({"stage": "startok", "b": "tune-small-frame-max", "timeout": true, "auth": "plain", "info": false}));
+        v.push(json!({"stage": "open", "b": "normal-then-heartbeat", "timeout": true, "auth": "plain", "info": false}));
+        v.push(json!({"stage": "open", "b": "normal-then-blocked", "timeout": true, "auth": "plain", "info": false}));
         // option variations on the good path and on the credential-rejection path
         for auth in ["plain", "external", "custom"] {
             for info in [false, true] {
